@@ -5,9 +5,9 @@ HERE = os.path.dirname(os.path.dirname(os.path.abspath(__file__)))
 table = subprocess.run([sys.executable, os.path.join(HERE, 'tools', 'seeded_design_section.py')], capture_output=True, text=True, check=True).stdout
 INTRO = '''### 8.1 Seeded changes and the checks that catch them
 
-Two batches of 20 sub-agents (one per property in each batch) were given only the text of that property and a
+Three batches of 20 sub-agents (one per property in each batch) were given only the text of that property and a
 private git worktree of `/repo`, nothing from `/verif`, and asked for changes (three each in batch 1, two
-each in batch 2, told to avoid the sites of batch 1) that break the property while the code still compiles and
+each in batch 2, one each in batch 3 — `<id>/1-3`, `/4-5`, `/6`; later batches were told to avoid the earlier sites) that break the property while the code still compiles and
 the existing tests still pass, each needing something specific to manifest, each with a demonstration script.
 A change was kept only after the demonstration passed on the clean tree and failed with the change in a fresh
 scratch worktree here (`tools/seeded_verify.sh`), and the repository's stable suite was run with the change
@@ -18,8 +18,12 @@ restores `/repo` and the evidence file. **D** = a contract obligation is refuted
 report does not say `no-failing-input-found`), **G** = a generated site obligation is refuted, B = a stand-in
 failure key. "first run" is the result before any strengthening; for a missed change it names what was added.
 
-Batch 1 was used to strengthen the machinery; **batch 2 is the honest estimate of what the machinery catches
-unseen**: 17 of 40 at first run. Every one of the 23 missed changes led to a strengthening (named in the
+Batch 1 was used to strengthen the machinery; **batches 2 and 3 are honest estimates of what the machinery
+catches unseen**: 17 of 40, then 10 of 20 at first run (batch 3 ran against the machinery as strengthened by
+batches 1 and 2; its agents had to avoid 5 earlier sites per property, so its changes sit in less central code:
+`clip` with Frame bounds, key functions returning deeper hierarchies, `StoreFilter`, `relabel_level_add`, ...).
+Of the 10 batch-3 misses, 5 are now refuted by contracts / site obligations (G3, G14, `Frame.equals`,
+`sort_index_for_order[key->index]`) and 5 by wider stand-in scopes. For batch 2: Every one of the 23 missed changes led to a strengthening (named in the
 "first run" column): new or completed contracts (`LocMap.bound_offset_slice`, `free_conditions` in the offset
 contract, `IndexHierarchy.from_index_items`, and — written after the stand-ins had been widened —
 `Index.equals`, `_ufunc_logical_skipna`, `SeriesAssign.__call__`, `normalize_container`, which now refute
